@@ -299,6 +299,12 @@ pub fn view(payload: &[u8]) -> R<TxView> {
                 if inner.as_array().map(|a| a.is_empty()).unwrap_or(true) {
                     facts.empties.push("native_scripts".into());
                 }
+                if let Some(a) = inner.as_array() {
+                    let mut seen = BTreeSet::new();
+                    if a.iter().any(|x| !seen.insert(x.raw(payload).to_vec())) {
+                        facts.duplicates.push("native_scripts".into());
+                    }
+                }
             }
             3 | 6 | 7 => {
                 let lang = match k.as_u64().unwrap() {
@@ -310,6 +316,12 @@ pub fn view(payload: &[u8]) -> R<TxView> {
                 let (inner, _) = v.untag_set();
                 if inner.as_array().map(|a| a.is_empty()).unwrap_or(true) {
                     facts.empties.push(format!("plutus_v{}_scripts", lang + 1));
+                }
+                if let Some(a) = inner.as_array() {
+                    let mut seen = BTreeSet::new();
+                    if a.iter().any(|x| !seen.insert(x.raw(payload).to_vec())) {
+                        facts.duplicates.push(format!("plutus_v{}_scripts", lang + 1));
+                    }
                 }
             }
             4 => facts.datums_range = Some((v.start, v.end)),
